@@ -249,8 +249,11 @@ func (p *c06) engine(spy *c06Spy, pol twig.SecurityPolicy, forbidName string) fu
 		for _, n := range []string{"f1", "f2", "okf", "upper", "merge", "e"} {
 			e.AddFilter(n, mkF(n))
 		}
-		if forbidName == "spaceless" {
-			e.AddFilter("spaceless", mkF("spaceless")) // the application's own spaceless
+		switch forbidName {
+		case "spaceless", "raw", "escape":
+			e.AddFilter(forbidName, mkF(forbidName)) // the application's own spaceless, raw, escape
+		case "parent", "block":
+			e.AddFunction(forbidName, mkG(forbidName))
 		}
 		for _, n := range []string{"g1", "g2", "okg", "range", "max", "cycle"} {
 			e.AddFunction(n, mkG(n))
@@ -275,7 +278,7 @@ func (p *c06) Run(rec *core.Recorder, seed uint64, idx int, tier string) {
 		pos = k / c06Routes
 	} else {
 		r := core.NewRand("C06", seed, idx)
-		pos, route, kindI, polI, variant = r.Intn(len(c06Positions)), r.Intn(c06Routes), r.Intn(2), r.Intn(4), 2+r.Intn(3)
+		pos, route, kindI, polI, variant = r.Intn(len(c06Positions)), r.Intn(c06Routes), r.Intn(2), r.Intn(6), 2+r.Intn(3)
 	}
 	kind := []string{"filter", "function"}[kindI]
 	// forbidden name per policy
@@ -287,8 +290,13 @@ func (p *c06) Run(rec *core.Recorder, seed uint64, idx int, tier string) {
 		name = map[string]string{"filter": "f2", "function": "g2"}[kind]
 	case 2:
 		name = map[string]string{"filter": "upper", "function": "cycle"}[kind]
-	default:
+	case 3:
 		name = map[string]string{"filter": "merge", "function": "range"}[kind]
+	case 4:
+		// names the engine itself gives a meaning to, re-registered by the application: the policy decides about them too
+		name = map[string]string{"filter": "raw", "function": "parent"}[kind]
+	default:
+		name = map[string]string{"filter": "escape", "function": "block"}[kind]
 	}
 	posSrc := c06Positions[pos]
 	if strings.HasPrefix(posSrc, "X_TAGFILTER:") {
@@ -329,8 +337,8 @@ func (p *c06) Run(rec *core.Recorder, seed uint64, idx int, tier string) {
 			rec.Count(fmt.Sprintf("prefix-hops:%d", len(hops)), 1)
 		}
 	}
-	allowedF := map[string]bool{"okf": true, "default": true, "length": true, "f1": true, "f2": true, "upper": true, "merge": true, "e": true, "spaceless": true}
-	allowedG := map[string]bool{"okg": true, "g1": true, "g2": true, "range": true, "max": true, "cycle": true, "pm": true, "mac": true, "parent": true, "go": true, "hop": true, "imac": true}
+	allowedF := map[string]bool{"okf": true, "default": true, "length": true, "f1": true, "f2": true, "upper": true, "merge": true, "e": true, "spaceless": true, "raw": true, "escape": true}
+	allowedG := map[string]bool{"okg": true, "g1": true, "g2": true, "range": true, "max": true, "cycle": true, "pm": true, "mac": true, "parent": true, "block": true, "go": true, "hop": true, "imac": true}
 	mkPolicy := func(forbid bool) twig.SecurityPolicy {
 		f, g := map[string]bool{}, map[string]bool{}
 		for k, v := range allowedF {
@@ -356,7 +364,7 @@ func (p *c06) Run(rec *core.Recorder, seed uint64, idx int, tier string) {
 	ctx := map[string]interface{}{"v": "vv", "xs": []interface{}{1, 2}, "yes": true, "no": false}
 	canon := canonSrcs(srcs) + fmt.Sprint(polI, kind)
 	rec.Eval(fmt.Sprintf("route%d", route), canon, true)
-	cs := map[string]any{"templates": srcs, "forbidden": kind + " " + name, "policy": []string{"default-edited", "custom", "default-edited/builtin-name", "custom/builtin-fallback-name"}[polI]}
+	cs := map[string]any{"templates": srcs, "forbidden": kind + " " + name, "policy": []string{"default-edited", "custom", "default-edited/builtin-name", "custom/builtin-fallback-name", "default-edited/engine-special-name", "custom/engine-special-name"}[polI]}
 	forbiddenTag := kind + ":" + name
 
 	// (1) forbidden: no spy call, SecurityViolation error
